@@ -590,6 +590,8 @@ theorem core_J (s : State) (now : Nat) (op : List String) (h : J s) : ∀ r ∈ 
               · intro y; rfl
           have h3 := wake_J _ c.id h2
           split at hr
+          · simp at hr
+          split at hr
           · simp at hr; subst hr
             refine J_of_fields (pump _ _ _).1 _ ?_ rfl rfl (fun e he => he)
             apply pump_J
@@ -609,7 +611,9 @@ theorem core_J (s : State) (now : Nat) (op : List String) (h : J s) : ∀ r ∈ 
         · simp at hr; subst hr; exact h
         · split at hr
           · simp at hr; subst hr; exact h
-          · simp at hr; subst hr
+          · split at hr
+            · simp at hr
+            simp at hr; subst hr
             exact wake_J _ _ (setCtx_J _ _ (fun y => { y with receiveWait := true }) (fun y => ⟨rfl, rfl, rfl⟩) (J_of_fields s _ h rfl rfl (fun e he => he)))
   · simp at hr; subst hr; exact setCtx_J s _ _ (fun y => ⟨rfl, rfl, rfl⟩) h
   · simp at hr; subst hr; exact setCtx_J s _ _ (fun y => ⟨rfl, rfl, rfl⟩) h
